@@ -25,9 +25,10 @@ def sh(cmd, cwd=None, timeout=3000):
     return p.returncode, (p.stdout + p.stderr)
 
 
-assert os.path.exists(src + '/patch.diff') and os.path.getsize(src + '/patch.diff') > 0, 'no patch.diff'
-shutil.copy(src + '/patch.diff', dst + '/patch.diff')
-shutil.copy(src + '/demo.py', dst + '/demo.py')
+if not (os.environ.get('SEED_RECHECK') and os.path.exists(dst + '/patch.diff')):
+    assert os.path.exists(src + '/patch.diff') and os.path.getsize(src + '/patch.diff') > 0, 'no patch.diff'
+    shutil.copy(src + '/patch.diff', dst + '/patch.diff')
+    shutil.copy(src + '/demo.py', dst + '/demo.py')
 # the patch must apply to /repo's HEAD
 rc, out = sh('git -C /repo apply --check %s/patch.diff' % dst)
 meta['applies_to_repo_head'] = rc == 0
@@ -35,20 +36,29 @@ if rc != 0:
     print('patch does not apply:', out[-500:])
     json.dump(meta, open(dst + '/meta.json', 'w'), indent=1)
     sys.exit(1)
-rc, out = sh('/venv/bin/python -m pytest -q -p no:cacheprovider tests 2>&1 | tail -3', cwd=src)
-meta['repo_tests_with_change'] = [l for l in out.splitlines() if 'passed' in l or 'failed' in l][-1:] or [out[-200:]]
-if ID.endswith('r3'):
+RECHECK = os.environ.get('SEED_RECHECK') and os.path.exists(dst + '/meta.json')      # confirmation done before: only re-run checks
+if RECHECK:
+    old = json.load(open(dst + '/meta.json'))
+    meta.update({k: old[k] for k in ('repo_tests_with_change', 'demo_with_change', 'demo_without_change', 'confirmed', 'summary', 'needs', 'round', 'history') if k in old})
+    results_old = old.get('checks', {})
+rc, out = (0, '') if RECHECK else sh('/venv/bin/python -m pytest -q -p no:cacheprovider tests 2>&1 | tail -3', cwd=src)
+if not RECHECK:
+    meta['repo_tests_with_change'] = [l for l in out.splitlines() if 'passed' in l or 'failed' in l][-1:] or [out[-200:]]
+if RECHECK:
+    rc1, rc0 = meta['demo_with_change']['rc'], meta['demo_without_change']['rc']
+elif ID.endswith('r3'):
     rc1, o1 = sh('PYTHONPATH=%s /venv/bin/python %s/demo.py' % (src, dst), cwd='/tmp')
     rc0, o0 = sh('PYTHONPATH=/repo /venv/bin/python %s/demo.py' % dst, cwd='/tmp')
 else:
     rc1, o1 = sh('/venv/bin/python %s/demo.py %s' % (dst, src), cwd='/tmp')
     rc0, o0 = sh('/venv/bin/python %s/demo.py /repo' % dst, cwd='/tmp')
-meta['demo_with_change'] = dict(rc=rc1, tail=o1.strip().splitlines()[-3:])
-meta['demo_without_change'] = dict(rc=rc0, tail=o0.strip().splitlines()[-3:])
+if not RECHECK:
+    meta['demo_with_change'] = dict(rc=rc1, tail=o1.strip().splitlines()[-3:])
+    meta['demo_without_change'] = dict(rc=rc0, tail=o0.strip().splitlines()[-3:])
 ok = rc1 != 0 and rc0 == 0 and any('100 passed' in l for l in meta['repo_tests_with_change'])
 meta['confirmed'] = ok
 print(ID, 'tests:', meta['repo_tests_with_change'], 'demo changed rc=%d unchanged rc=%d' % (rc1, rc0), 'CONFIRMED' if ok else 'NOT CONFIRMED')
-results = {}
+results = dict(results_old) if RECHECK else {}
 # the checks run against a scratch copy of /repo's package with the change applied (EAO_REPO), so that /repo itself -- which
 # other runs may be using at the same time -- is never touched; scratch runs write their evidence under out/, not evidence/
 import tempfile
